@@ -11,6 +11,10 @@ from harness import world as W
 from harness import c12 as B
 import clematis.engine.stages.t1 as T1
 
+def install():
+    W.stub_store_etag()  # symbolic weights: the real etag would hash (realise) them; a counter etag keys the cache equally well here
+
+
 SP = [None, 0, 1, 2, 5] if H.THOROUGH else [None, 1, 2]
 SI = [None, 0, 1, 3] if H.THOROUGH else [None, 1]
 
